@@ -15,6 +15,7 @@ import (
 func init() {
 	csScenarios["mux-dispatch-takeover-remove"] = c12dispatch
 	csScenarios["mux-close-vs-getconn"] = c12closeGet
+	csScenarios["tcpmux-close-vs-getconn"] = c15closeGet
 }
 
 func c12poll(h net.PacketConn) []string {
@@ -196,6 +197,76 @@ func c12closeGet() zzmc.Scenario {
 					fail += "OTHER-UFRAG-DISTURBED "
 				}
 				_ = other.Close()
+				_ = m.Close()
+
+				return out, fail
+			}
+		},
+	}
+}
+
+// c15closeGet: TCP mux, one user closes the last handle of a ufrag while another asks for the same ufrag.
+func c15closeGet() zzmc.Scenario {
+	return zzmc.Scenario{
+		Name:     "tcpmux-close-vs-getconn",
+		Focus:    []string{"tcp_mux.go", "tcp_packet_conn.go", "shared_packet_conn.go"},
+		MaxSteps: 2000,
+		Setup: func(s *zzmc.Sched) func(string) (string, string) {
+			lis := &fakeLis{ch: make(chan net.Conn), closed: make(chan struct{}), addr: &net.TCPAddr{IP: net.ParseIP("10.0.0.1").To4(), Port: 7001}}
+			m := NewTCPMuxDefault(TCPMuxParams{Listener: lis, Logger: nopLogger{}, ReadBufferSize: 16})
+			ip := net.ParseIP("10.0.0.1").To4()
+			h1, err := m.GetConnByUfrag("u1", false, ip)
+			if err != nil {
+				panic(err)
+			}
+			var h1b net.PacketConn
+			var gerr error
+			fail := ""
+			s.Go("C", func() { _ = h1.Close() })
+			s.Go("G", func() { h1b, gerr = m.GetConnByUfrag("u1", false, ip) })
+
+			return func(dead string) (string, string) {
+				synctest.Wait()
+				out := "getconn-failed"
+				if gerr != nil {
+					fail += "GETCONN-FAILED:" + gerr.Error() + " "
+				} else {
+					// the handle just obtained must be the working connection of its ufrag
+					got := make(chan string, 4)
+					go func() {
+						buf := make([]byte, 2000)
+						for {
+							n, from, err := h1b.ReadFrom(buf)
+							if err != nil {
+								if from == nil {
+									close(got)
+
+									return
+								}
+
+								continue
+							}
+							got <- fmt.Sprintf("%d@%v", n, from)
+						}
+					}()
+					c, srv := newPipe(&net.TCPAddr{IP: net.ParseIP("192.0.2.9").To4(), Port: 40001}, lis.addr)
+					lis.ch <- srv
+					wire, _, _ := c15first("u1")
+					_, _ = c.Write(wire)
+					synctest.Wait()
+					select {
+					case g, ok := <-got:
+						if !ok {
+							fail += "HANDLE-FROM-GETCONN-IS-CLOSED "
+						} else {
+							out = "delivered " + g
+						}
+					default:
+						fail += "HANDLE-FROM-GETCONN-RECEIVES-NOTHING "
+					}
+					_ = h1b.Close()
+					_ = c.Close()
+				}
 				_ = m.Close()
 
 				return out, fail
